@@ -120,6 +120,16 @@ def sensor_models(draw, max_bodies=5, max_sensors=10, min_sensors=3, history=Tru
       tag = '<%s name="%s"' % (mt.group(1), mt.group(2))
       xml = xml.replace(tag, tag + ' margin="%s"' % mg.fmt(draw(mg.num(0.01, 0.3))), 1)
 
+  # ---- half of the limited tendons get a narrow range so that the limit is active in many states
+  for mt in list(re.finditer(r'<(fixed|spatial) name="([a-z0-9_]+)"[^>]*limited="true"[^>]*>', xml)):
+    if draw(st.booleans()):
+      tag = mt.group(0)
+      if mt.group(1) == 'fixed':
+        rng = '-%s %s' % (mg.fmt(draw(mg.num(0.01, 0.1))), mg.fmt(draw(mg.num(0.01, 0.1))))
+      else:
+        rng = '0 %s' % mg.fmt(draw(mg.num(0.1, 0.6)))
+      xml = xml.replace(tag, re.sub(r'range="[^"]*"', 'range="%s"' % rng, tag), 1)
+
   sites = list(info['sites'])
   bsites = [s for s in sites if s != 's0']
   bodies = list(info['bodies'])
@@ -155,6 +165,8 @@ def sensor_models(draw, max_bodies=5, max_sensors=10, min_sensors=3, history=Tru
   info['static_bodies'] = sorted(static)
   rk4 = 'integrator="RK4"' in xml
   info['excluded_rk4_delay'] = 0
+  info['excluded_capsulebox_cutoff'] = 0
+  gtype = dict(re.findall(r'<geom name="([a-z0-9_]+)" type="([a-z]+)"', xml))
   energy_flag = 'energy="enable"' in xml
   info['excluded_ekinetic_energyflag'] = 0
   info['excluded_static_acc'] = 0
@@ -181,7 +193,7 @@ def sensor_models(draw, max_bodies=5, max_sensors=10, min_sensors=3, history=Tru
   if tendons:
     kinds += ['tendon']
   if ltendons:
-    kinds += ['tendonlimit']
+    kinds += ['tendonlimit', 'tendonlimit']
   if acts:
     kinds += ['actuator']
   kinds += ['framepos', 'framepos', 'framevel', 'framevel', 'frameacc', 'subtree', 'global', 'contact']
@@ -285,8 +297,8 @@ def sensor_models(draw, max_bodies=5, max_sensors=10, min_sensors=3, history=Tru
         el = 'e_potential'
     elif kind == 'collision':
       el = draw(st.sampled_from(['distance', 'normal', 'fromto']))
-      usebody1 = draw(st.integers(0, 2)) == 0
-      usebody2 = draw(st.integers(0, 2)) == 0
+      usebody1 = draw(st.booleans())
+      usebody2 = draw(st.booleans())
       if usebody1 and usebody2 and len(bodies) < 2:
         usebody2 = False
       if usebody1:
@@ -337,7 +349,20 @@ def sensor_models(draw, max_bodies=5, max_sensors=10, min_sensors=3, history=Tru
         a['datatype'] = draw(st.sampled_from(['real', 'positive']))
     cutoff = 0.0
     if el in ('distance', 'normal', 'fromto'):
-      cutoff = draw(st.sampled_from([0.0, 0.0, 0.05, 0.3, 1.0, 3.0, 10.0]))
+      choices = [0.0, 0.05, 0.3, 1.0, 3.0, 3.0, 10.0]
+
+      def gset(key_g, key_b):
+        if key_g in a:
+          return [a[key_g]]
+        return [g for g in geoms if g.startswith('g' + a[key_b][1:] + '_')]
+      t1 = set(gtype.get(g) for g in gset('geom1', 'body1'))
+      t2 = set(gtype.get(g) for g in gset('geom2', 'body2'))
+      if ('capsule' in t1 and 'box' in t2) or ('box' in t1 and 'capsule' in t2):
+        # known finding C28:capsulebox-distmax (capsule-box collider misses pairs with d^2 > distmax + sizes when
+        # distmax > 1): excluded by construction by keeping the cutoff <= 1
+        choices = [0.0, 0.05, 0.3, 1.0, 1.0]
+        info['excluded_capsulebox_cutoff'] += 1
+      cutoff = draw(st.sampled_from(choices))
     elif el in NO_XML_CUTOFF:
       cutoff = 0.0      # compile error: 'cutoff applied to axis or quaternion datatype'
     elif draw(st.integers(0, 2)) == 0:
